@@ -12,6 +12,9 @@
 //   pool pick2 a=<id> b=<id> picker=<n>      two plain picks run concurrently while the harness stalls gb.mu
 //                                            => <events> ; a:<result> ; b:<result> ; <digest>
 //   pool adv ns=<n>                          advance the virtual clock
+//   pool pickhold call=<id> picker=<n> ...   like pick, but the pick is stopped right before gcpBalancer.newSubConn
+//                                            if it gets there (=> held); the picker's mutex stays locked
+//   pool resume call=<id>                    let a stopped pick continue
 //   pool pick call=<id> picker=<n> m=<method> ctx=gcp|gcpnoreply|none dl=<abs ns>|none req=<shape>
 //   pool ctxdone call=<id>                   cancel the context of a waiting round-robin BIND pick
 //   pool done call=<id> err=nil|other|declient|deserver reply=<key>/<k1,k2>
@@ -57,6 +60,26 @@ var verifClock int64 // ns since verifBase
 var verifBase = time.Unix(1700000000, 0)
 
 func verifNow() time.Time { return verifBase.Add(time.Duration(atomic.LoadInt64(&verifClock))) }
+
+// ---- schedule hook (a call to verifHookNewSubConn() is placed in front of the first statement of
+// gcpBalancer.newSubConn by the overlay, bin/overlay.py): the one pick the harness has armed stops there
+
+var verifHoldArmed int32
+var verifHoldParked = make(chan chan struct{}, 1)
+
+func verifHookNewSubConn() {
+	if atomic.CompareAndSwapInt32(&verifHoldArmed, 1, 0) {
+		rel := make(chan struct{})
+		verifHoldParked <- rel
+		<-rel
+	}
+}
+
+type vHeld struct {
+	c   *vCall
+	pn  int
+	rel chan struct{}
+}
 
 // ---- messages
 
@@ -236,6 +259,7 @@ type vPool struct {
 	calls   map[int]*vCall
 	waiting []*vCall
 	dead    bool
+	held    map[int]*vHeld
 }
 
 var vMethods = map[string]*pb.AffinityConfig{
@@ -541,7 +565,23 @@ func (h *vPool) exec(line string) string {
 		atomic.AddInt64(&verifClock, n)
 		res = "ok"
 	case "pick":
-		res = h.doPick(a)
+		res = h.doPick(a, false)
+	case "pickhold":
+		res = h.doPick(a, true)
+	case "resume":
+		id := atoi("call")
+		hp, ok := h.held[id]
+		if !ok {
+			return "bad-op"
+		}
+		delete(h.held, id)
+		close(hp.rel)
+		select {
+		case r := <-hp.c.result:
+			res = h.recordPlaced(hp.c, r)
+		case <-time.After(3 * time.Second):
+			res = "HANG"
+		}
 	case "pick2":
 		res = h.doPick2(a)
 	case "ctxdone":
@@ -606,9 +646,21 @@ func (h *vPool) exec(line string) string {
 	return strings.Join(append(evs, h.digest()), " ; ")
 }
 
-func (h *vPool) doPick(a map[string]string) string {
+func (h *vPool) pickerBusy(pn int) bool {
+	for _, hp := range h.held {
+		if hp.pn == pn {
+			return true
+		}
+	}
+	return false
+}
+
+func (h *vPool) doPick(a map[string]string, hold bool) string {
 	id, _ := strconv.Atoi(a["call"])
 	pn, _ := strconv.Atoi(a["picker"])
+	if _, dup := h.held[id]; dup || h.pickerBusy(pn) {
+		return "bad-op" // a stopped pick keeps the picker's mutex
+	}
 	if pn < 0 || pn >= len(h.cc.pubs) {
 		return "bad-op"
 	}
@@ -631,6 +683,12 @@ func (h *vPool) doPick(a map[string]string) string {
 		ctx = context.WithValue(ctx, gcpKey, &gcpContext{reqMsg: req})
 	}
 	rrBefore := h.gb.rrRefId
+	var parked chan chan struct{}
+	if hold && verifHookInstalled {
+		parked = verifHoldParked
+		atomic.StoreInt32(&verifHoldArmed, 1)
+		defer atomic.StoreInt32(&verifHoldArmed, 0)
+	}
 	go func() {
 		defer func() {
 			if r := recover(); r != nil {
@@ -654,6 +712,10 @@ func (h *vPool) doPick(a map[string]string) string {
 	select {
 	case r := <-c.result:
 		return h.recordPlaced(c, r)
+	case rel := <-parked:
+		// stopped between the pool-size check and newSubConn
+		h.held[id] = &vHeld{c: c, pn: pn, rel: rel}
+		return "held"
 	case <-vc.entered:
 		// the pick called ctx.Done(): it is blocked in the round-robin wait loop (or about to return)
 		select {
@@ -684,7 +746,7 @@ func (h *vPool) doPick2(a map[string]string) string {
 	if pn < 0 || pn >= len(h.cc.pubs) {
 		return "bad-op"
 	}
-	if _, dup := h.calls[ida]; dup || ida == idb {
+	if _, dup := h.calls[ida]; dup || ida == idb || h.pickerBusy(pn) {
 		return "bad-op"
 	}
 	if _, dup := h.calls[idb]; dup {
@@ -746,6 +808,10 @@ func (h *vPool) reset(a map[string]string) {
 	for _, c := range h.waiting {
 		close(c.ctx.doneCh)
 	}
+	for _, hp := range h.held {
+		close(hp.rel)
+	}
+	h.held = map[int]*vHeld{}
 	atomic.StoreInt64(&verifClock, 0)
 	h.cc = &vCC{scs: map[int]*vSubConn{}, harness: h}
 	h.calls = map[int]*vCall{}
@@ -855,10 +921,66 @@ func (g *vGen) cfgLine() string {
 		g.ums = ums
 		g.scenarioFallbackRefresh()
 	}
+	if (g.profile == "growth" || g.profile == "load") && r.Intn(2) == 0 && verifHookInstalled && cfg == "given" {
+		min, max, wm, rr = 1, 2+r.Intn(2), 1+r.Intn(2), 0
+		if r.Intn(6) == 0 {
+			max = 1
+		}
+		g.scenarioGrowthRace(wm)
+	}
 	g.maxAddr = 1
 	g.rrOn = rr == 1
 	g.keys = []string{"k1", "k2", "k3", "k4"}[:1+r.Intn(4)]
 	return fmt.Sprintf("pool cfg min=%d max=%d wm=%d fb=%d rr=%d uc=%d ums=%d cfg=%s", min, max, wm, fb, rr, uc, ums, cfg)
+}
+
+// scenarioGrowthRace: a pick on a superseded picker is stopped between the pool-size check and
+// newSubConn; meanwhile a pick on the current picker grows the pool and the new channel comes up; then
+// the stopped pick continues (sometimes earlier, sometimes after further growth).
+func (g *vGen) scenarioGrowthRace(wm int) {
+	r, h := g.rng, g.h
+	add := func(f func() string) { g.script = append(g.script, f) }
+	cur := func() int { return len(h.cc.pubs) - 1 }
+	plain := func(kind string, pn func() int) func() string {
+		return func() string {
+			if len(h.cc.pubs) == 0 {
+				return ""
+			}
+			g.nextCall++
+			return fmt.Sprintf("pool %s call=%d picker=%d m=plain ctx=gcp dl=none req=/", kind, g.nextCall, pn())
+		}
+	}
+	lastSc := func() int { return h.cc.nextSc - 1 }
+	add(func() string { return "pool ccs addrs=1" })
+	add(func() string { return "pool scs sc=0 st=READY" })
+	for i := 0; i < wm; i++ {
+		add(plain("pick", cur))
+	}
+	// a second picker with the same ready list
+	add(func() string { return "pool scs sc=0 st=CONNECTING" })
+	add(func() string { return "pool scs sc=0 st=READY" })
+	heldID := 0
+	add(func() string {
+		l := plain("pickhold", func() int { return 0 })()
+		heldID = g.nextCall
+		return l
+	})
+	rounds := 1 + r.Intn(2)
+	early := r.Intn(4) == 0
+	for k := 0; k < rounds; k++ {
+		add(plain("pick", cur)) // grows the pool (if it still may)
+		if early && k == 0 {
+			add(func() string { return fmt.Sprintf("pool resume call=%d", heldID) })
+		}
+		add(func() string { return fmt.Sprintf("pool scs sc=%d st=CONNECTING", lastSc()) })
+		add(func() string { return fmt.Sprintf("pool scs sc=%d st=READY", lastSc()) })
+		for i := 0; i < wm; i++ {
+			add(plain("pick", cur))
+		}
+	}
+	if !early {
+		add(func() string { return fmt.Sprintf("pool resume call=%d", heldID) })
+	}
 }
 
 // scenarioAffinityRefresh: bind several keys, make one keyed channel unresponsive so that it is
@@ -1145,6 +1267,12 @@ func (g *vGen) pickLine() string {
 	if r.Intn(6) == 0 {
 		pn = r.Intn(len(h.cc.pubs)) // a stale picker
 	}
+	if h.pickerBusy(pn) {
+		pn = len(h.cc.pubs) - 1
+		if h.pickerBusy(pn) {
+			return ""
+		}
+	}
 	var m string
 	w := r.Intn(100)
 	switch g.profile {
@@ -1213,7 +1341,11 @@ func (g *vGen) pickLine() string {
 		dl = strconv.FormatInt(now+int64(r.Intn(3))*1000000, 10)
 	}
 	g.nextCall++
-	return fmt.Sprintf("pool pick call=%d picker=%d m=%s ctx=%s dl=%s req=%s", g.nextCall, pn, m, ctx, dl, req)
+	kind := "pick"
+	if verifHookInstalled && len(h.held) < 2 && (r.Intn(12) == 0 || ((g.profile == "growth" || g.profile == "load") && r.Intn(4) == 0)) {
+		kind = "pickhold"
+	}
+	return fmt.Sprintf("pool %s call=%d picker=%d m=%s ctx=%s dl=%s req=%s", kind, g.nextCall, pn, m, ctx, dl, req)
 }
 
 func (g *vGen) doneLine() string {
@@ -1295,6 +1427,14 @@ func (g *vGen) next(i int) string {
 	if i <= 3 && r.Intn(3) != 0 {
 		return fmt.Sprintf("pool scs sc=%d st=READY", g.knownSc())
 	}
+	if len(h.held) > 0 && r.Intn(5) == 0 {
+		ids := []int{}
+		for id := range h.held {
+			ids = append(ids, id)
+		}
+		sort.Ints(ids)
+		return fmt.Sprintf("pool resume call=%d", ids[r.Intn(len(ids))])
+	}
 	for tries := 0; tries < 10; tries++ {
 		w := r.Intn(100)
 		line := ""
@@ -1304,6 +1444,9 @@ func (g *vGen) next(i int) string {
 			pn := len(h.cc.pubs) - 1
 			if r.Intn(8) == 0 {
 				pn = r.Intn(len(h.cc.pubs))
+			}
+			if h.pickerBusy(pn) {
+				continue
 			}
 			g.nextCall += 2
 			line = fmt.Sprintf("pool pick2 a=%d b=%d picker=%d", g.nextCall-1, g.nextCall, pn)
